@@ -257,6 +257,9 @@ where
     let cap_height = fri_params.config.cap_height;
 
     ensure!(trace_cap.height() == cap_height);
+    // The quotient cap must be present exactly when the STARK has quotient polynomials: a missing
+    // cap would leave the quotient oracle out of both the transcript and the FRI Merkle checks.
+    ensure!(quotient_polys_cap.is_some() == (stark.num_quotient_polys(config) > 0));
     ensure!(
         quotient_polys_cap.is_none()
             || quotient_polys_cap.as_ref().map(|q| q.height()) == Some(cap_height)
